@@ -393,6 +393,141 @@ def op_table():
         if observable(P) != before:
             raise PropertyViolation("C12: mutating a collection after passing it to a constructor changed the object built from it")
 
+    # ---- singletons (C17, C18): the real registries against a plain-dictionary reference model --------------------
+    ARGSETS = [((), {}), ((1,), {}), ((-1,), {}), ((-2,), {}), ((1, 2), {}), ((), {"x": 1, "y": 2}), ((), {"y": 2, "x": 1}),
+               ((), {"d": {"a": 1, "b": 2}}), ((), {"d": {"b": 2, "a": 1}}), ((1.0,), {}), ((True,), {})]
+
+    def skey(a, k):
+        import json
+        return (a, json.dumps(k, sort_keys=True))
+
+    def sing(P):
+        if not hasattr(P, "sg"):
+            S = P.mods["singleton"]
+            S.clear_true_singleton()
+            M = S.semi_singleton_metaclass()
+            log = []
+
+            class Base:
+                def __init__(self, *a, **k):
+                    log.append((type(self).__name__, a, dict(k)))
+                    self.a, self.k = a, k
+
+                def __len__(self):          # a falsy instance: truthiness must not matter
+                    return 0
+            A = M("A", (Base,), {})
+            B = M("B", (Base,), {})
+            SubA = M("SubA", (A,), {})
+            C = S.semi_singleton_metaclass()("C", (Base,), {})
+            T1 = S.TrueSingleton("T1", (Base,), {})
+            T2 = S.TrueSingleton("T2", (T1,), {})
+            T3 = S.TrueSingleton("T3", (Base,), {})
+            P.sg = {"S": S, "semi": [A, B, SubA, C], "true": [T1, T2, T3], "log": log,
+                    "model": {c: {} for c in (A, B, SubA, C)}, "tmodel": {}, "objs": []}
+        return P.sg
+
+    @reg("semi_call", 2, "singleton")
+    def _(P, ci, ai):
+        g = sing(P)
+        cls = g["semi"][ci % 4]
+        a, k = ARGSETS[ai % len(ARGSETS)]
+        n0 = len(g["log"])
+        got = cls(*a, **k)
+        key = skey(a, k)
+        m = g["model"][cls]
+        if key in m:
+            if got is not m[key] or len(g["log"]) != n0:
+                raise PropertyViolation(f"C17: {cls.__name__}{a}{k}: a live key must return its instance without running __init__")
+        else:
+            if any(got is o for d in g["model"].values() for o in d.values()) or len(g["log"]) != n0 + 1:
+                raise PropertyViolation(f"C17: {cls.__name__}{a}{k}: a new key must create a new instance (init ran {len(g['log']) - n0}x)")
+            m[key] = got
+            g["objs"].append(got)
+        if type(got) is not cls:
+            raise PropertyViolation(f"C17: {cls.__name__}(...) returned an instance of {type(got).__name__}")
+
+    @reg("semi_add_mapping", 2, "singleton")
+    def _(P, oi, ai):
+        g = sing(P)
+        if not g["objs"]:
+            return
+        obj = g["objs"][oi % len(g["objs"])]
+        a, k = ARGSETS[ai % len(ARGSETS)]
+        g["S"].add_mapping(obj, *a, **k)
+        g["model"][type(obj)][skey(a, k)] = obj
+
+    @reg("semi_drop", 2, "singleton")
+    def _(P, ci, ai):
+        g = sing(P)
+        cls = g["semi"][ci % 4]
+        a, k = ARGSETS[ai % len(ARGSETS)]
+        key = skey(a, k)
+        try:
+            g["S"].drop_semi_singleton_mapping(cls, *a, **k)
+            dropped = True
+        except KeyError:
+            dropped = False
+        if dropped != (key in g["model"][cls]):
+            raise PropertyViolation("C17: drop_semi_singleton_mapping disagrees with the live mappings")
+        g["model"][cls].pop(key, None)
+
+    @reg("semi_check", 2, "singleton")
+    def _(P, ci, ai):
+        g = sing(P)
+        cls = g["semi"][ci % 4]
+        a, k = ARGSETS[ai % len(ARGSETS)]
+        n0 = len(g["log"])
+        got = g["S"].check_semi_singleton_entry_exists(cls, *a, **k)
+        want = g["model"][cls].get(skey(a, k))
+        if got is not want or len(g["log"]) != n0:
+            raise PropertyViolation("C17: check_semi_singleton_entry_exists does not report exactly the live mapping")
+
+    @reg("semi_get_all", 1, "singleton")
+    def _(P, ci):
+        g = sing(P)
+        cls = g["semi"][ci % 4]
+        n0 = len(g["log"])
+        got = list(g["S"].get_all_semi_singleton_instances(cls))
+        want = list(g["model"][cls].values())
+        if sorted(map(id, got)) != sorted(map(id, want)) or len(g["log"]) != n0:
+            raise PropertyViolation(f"C17: get_all_semi_singleton_instances({cls.__name__}) reports {len(got)} instances, {len(want)} mappings are live")
+
+    @reg("semi_clear", 1, "singleton")
+    def _(P, ci):
+        g = sing(P)
+        cls = g["semi"][ci % 4]
+        g["S"].clear_semi_singleton(cls)
+        g["model"][cls].clear()
+
+    @reg("true_call", 2, "singleton")
+    def _(P, ti, ai):
+        g = sing(P)
+        cls = g["true"][ti % 3]
+        a, k = ARGSETS[ai % len(ARGSETS)]
+        n0 = len(g["log"])
+        got = cls(*a, **k)
+        tm = g["tmodel"]
+        if cls in tm:
+            if got is not tm[cls] or len(g["log"]) != n0:
+                raise PropertyViolation(f"C18: {cls.__name__}: between two clears every construction must return the same object, __init__ once")
+        else:
+            if len(g["log"]) != n0 + 1 or type(got) is not cls or any(got is o for o in tm.values()):
+                raise PropertyViolation(f"C18: {cls.__name__}: first construction after a clear must build one new instance of that class")
+            tm[cls] = got
+        if got.a != g["log"][[i for i, e in enumerate(g["log"]) if e[0] == cls.__name__][-1]][1]:
+            raise PropertyViolation("C18: the instance was not initialised with the arguments of the first call of its period")
+
+    @reg("true_clear", 1, "singleton")
+    def _(P, ti):
+        g = sing(P)
+        if ti < 0:
+            g["S"].clear_true_singleton()
+            g["tmodel"].clear()
+        else:
+            cls = g["true"][ti % 3]
+            g["S"].clear_true_singleton(cls)
+            g["tmodel"].pop(cls, None)
+
     @reg("render_text", 3, "text")
     def _(P, u, rf, sk):
         """C16: basic_render against the text built from the public API (one line per member ...)"""
@@ -638,7 +773,7 @@ GROUPS = {
     "C04": ("assoc", "explicit", "query"), "C09": ("assoc", "explicit", "query"),
     "C05": ("assoc", "explicit", "cache", "query"), "C12": ("assoc", "member", "laws", "cache", "query", "snapshot"),
     "C13": ("assoc", "explicit", "member", "render", "query"),
-    "C16": ("assoc", "explicit", "member", "text"),
+    "C16": ("assoc", "explicit", "member", "text"), "C17": ("singleton",), "C18": ("singleton",),
     "C06": ("assoc", "explicit", "member", "traverse"), "C07": ("assoc", "explicit", "member", "traverse"),
     "C08": ("assoc", "explicit", "member", "traverse"),
 }
@@ -661,6 +796,10 @@ def fresh_world(repo_root, only=None):
             mods[m] = importlib.import_module("edgegraph.output." + m)
         except Exception:
             pass
+    try:
+        mods["singleton"] = importlib.import_module("edgegraph.structure.singleton")
+    except Exception:
+        pass
     for m in ("breadthfirst", "depthfirst"):
         try:
             mods[m] = importlib.import_module("edgegraph.traversal." + m)
@@ -820,7 +959,7 @@ def explore(pid, budget_s=30.0, seed=0, repo_root="/repo", only=None, max_len=6,
         if sysq and n % 2 == 0:
             hist = sysq.pop()
         else:
-            hist = random_history(rng, groups, rng.randint(1, max_len), weights)
+            hist = random_history(rng, groups, rng.randint(1, max_len), weights, hi=(12 if "singleton" in groups else 3))
         n += 1
         distinct.add(tuple(hist))
         r = run_history(hist, mon, mods, oracles)
